@@ -146,6 +146,21 @@ def run(tier, seed, repo, focus=None):
         res.count(key=repr(scn), nontrivial=True, n=scn["n"], check="LFR vs specification (label encodings)")
         if msg:
             res.violation("LFR (%s labels): %s" % (enc, msg), REPLAY % dict(verif=VERIF, scn=scn), known)
+    prng = np.random.RandomState(seed + 606)
+    for r in range(3 if quick else 30):
+        tracked = [x for x in RATES if prng.rand() < 0.6] or ["tpr"]
+        params = dict(time_decay_factor=float(prng.choice([0.3, 0.6, 0.9, 0.99])), warning_level=float(prng.choice([0.05, 0.2, 0.4])),
+                      burn_in=int(prng.randint(0, 12)), num_mc=int(prng.randint(20, 80)), subsample=int(prng.randint(1, 5)),
+                      rates_tracked=tracked, round_val=int(prng.randint(1, 5)))
+        params["detect_level"] = params["warning_level"] * float(prng.choice([0.1, 0.5, 1.0]))
+        scn = {"params": params, "seed": seed + r, "n": 70 if quick else 140}
+        try:
+            msg = check(scn)
+        except Exception as e:
+            msg = "%s: %s" % (type(e).__name__, e)
+        res.count(key=repr(scn), nontrivial=True, n=scn["n"], check="LFR vs specification (random parameters)")
+        if msg:
+            res.violation("LFR: " + msg, REPLAY % dict(verif=VERIF, scn=scn), known)
     for s in range(50):
         msg = check_rates({"seed": seed + s})
         res.count(key=("rates", s), nontrivial=True, check="four rates")
